@@ -87,7 +87,7 @@ F14_PROBE = ['scenario', ['debug', 1], ['start', 0], ['flags', 1], ['locks', 0],
 
 def run(tier, seed, drv):
     return msuite.standard_run(PID, 'C03', TAGS, tier, seed, drv, SOURCES, nontrivial=nontrivial, rule=RULE,
-                               n_quick=200, n_thorough=6000, refine=refine, probes=[('F14', F14_PROBE)])
+                               n_quick=200, n_thorough=6000, refine=refine, probes=[('F14', F14_PROBE)], optimized=100 if tier == 'quick' else 1000)
 
 
 def replay(data, drv):
